@@ -42,6 +42,8 @@ class Knobs:
         self.flavour = None
         self.p_generics = 0.5
         self.p_modules = 0.3
+        self.p_methods = 0.4
+        self.p_crates = 0.3
         self.__dict__.update(kw)
         if self.flavour == "observers":
             self.n_obs = (3, 6)
@@ -439,7 +441,76 @@ def gen_inclass(rng, knobs=None):
     vary_cloning_representation(rng, spec)
     if rng.random() < kn.p_modules:
         modularize(rng, spec)
+    if rng.random() < kn.p_crates:
+        crateize(rng, spec)
+    if rng.random() < kn.p_methods:
+        methodize(rng, spec)
     return spec
+
+
+def crateize(rng, spec):
+    """Representation pass: a dependency-closed part of the types, their constructors and the errors those return
+    moves to a second library crate of the workspace (`depk`), which the application depends on — under its own name
+    or renamed (`dk = { package = "depk", .. }`). Registrations then name foreign paths (`dk::C3`), and the generated
+    SDK has to depend on, and spell the paths of, a crate that is not the application."""
+    plain = [t for t, tt in spec["types"].items() if not tt.get("generic")]
+    moved = set()
+    ctors = []
+    for cid, c in spec["ctors"].items():
+        if c.get("generic_param") or c.get("module") or c["out"] not in plain:
+            continue
+        # constructors come in dependency order: all inputs of a moved constructor must have moved before it
+        if all(t in moved for (t, _m) in c["ins"]) and rng.random() < 0.65:
+            moved.add(c["out"])
+            ctors.append(cid)
+    if not ctors:
+        return
+    # every type a moved constructor mentions must be in the dependency (an override registered for a moved type may stay
+    # in the application: the fields of our types are public)
+    errors = []
+    for cid in ctors:
+        e = spec["ctors"][cid].get("fallible")
+        if e and e not in errors:
+            errors.append(e)
+    spec["dep"] = {"alias": rng.choice(["depk", "dk"]), "types": [t for t in spec["types"] if t in moved],
+                   "errors": errors, "ctors": ctors}
+
+
+def methodize(rng, spec, p=0.5):
+    """Representation pass: some components become inherent methods inside `#[pavex::methods] impl T { .. }` blocks —
+    static ones on the type they build (returning `Self` or the type's name), or methods whose receiver
+    (`&self`, `&mut self`, `self`) is their first injected input; error handlers become `&self` methods of their error
+    type. What is registered, injected and expected at run time does not change; the callable paths the compiler has to
+    resolve and spell in the generated code do."""
+    def plain(t):
+        tt = spec["types"].get(t)
+        return tt is not None and not tt.get("generic") and "<" not in t
+
+    dep = spec.get("dep") or {"types": [], "errors": [], "ctors": []}
+
+    def receiver_of(comp, in_dep=False):
+        ins = comp.get("ins") or []
+        return bool(ins) and plain(ins[0][0]) and (in_dep or ins[0][0] not in dep["types"])
+
+    for cid, c in spec["ctors"].items():
+        if c.get("generic_param") or c.get("module") or not plain(c["out"]) or rng.random() >= p:
+            continue
+        in_dep = cid in dep["ctors"]
+        if not in_dep and c["out"] in dep["types"]:
+            if not receiver_of(c):
+                continue
+            c["method"] = {"on": c["ins"][0][0], "receiver": True, "bare_attr": rng.random() < 0.5}
+        elif receiver_of(c, in_dep) and c["ins"][0][0] != c["out"] and rng.random() < 0.5:
+            c["method"] = {"on": c["ins"][0][0], "receiver": True, "bare_attr": rng.random() < 0.5}
+        else:
+            c["method"] = {"on": c["out"], "self_ret": rng.random() < 0.6, "bare_attr": rng.random() < 0.5}
+    for group in ("handlers", "mws", "fallbacks", "obs"):
+        for xid, x in spec[group].items():
+            if rng.random() < p and receiver_of(x) and x.get("path_params") is None:
+                x["method"] = {"on": x["ins"][0][0], "receiver": True, "bare_attr": rng.random() < 0.5}
+    for ehid, eh in spec["ehs"].items():
+        if eh["err"] != "pavex" and eh["err"] not in dep["errors"] and rng.random() < p:
+            eh["method"] = {"bare_attr": rng.random() < 0.5}
 
 
 def _bp_nodes(bp, depth=0):
@@ -577,8 +648,9 @@ def repair_known(spec):
     executed on every run by its dedicated regression case), so that they do not drown the exploration:
       * a fallible component inside a middleware's call graph shared by pipelines with different observer chains
         (codegen 'did not visit all nodes') -> all observers move to the front of the root blueprint;
-      * a request-scoped constructor overridden in a nested blueprint while >= 2 inherited middlewares inject the type
-        (enforce_invariants panic) -> the override is dropped."""
+      * a request-scoped constructor overridden in a nested blueprint while >= 2 inherited middlewares inject the type, or one
+        does and a component of the nested blueprint needs it too (enforce_invariants panic), or below an inherited wrapping
+        middleware (override resolved in the parent's scope) -> the override is dropped."""
     from e2e.model import Model
     m = Model(spec)
     # --- observers
@@ -617,9 +689,12 @@ def repair_known(spec):
                 for cit in list(child["items"]):
                     if cit[0] == "ctor" and "_" in cit[1] and spec["ctors"][cit[1]]["lc"] == "request":
                         t = spec["ctors"][cit[1]]["out"].split("<")[0]
-                        users = [x for x in mws_here if any(tt.split("<")[0] == t for (_c, tt) in m.closure(x)) or any(tt.split("<")[0] == t for (tt, _m) in m.comp(x)[1].get("ins", []))]
+                        from e2e.patterns import _components_under, uses_type
+                        uses = lambda x: uses_type(spec, m, x, t)
+                        users = [x for x in mws_here if uses(x)]
                         inherited_wrap = any(x in spec["mws"] and spec["mws"][x]["kind"] == "wrap" for x in mws_here)
-                        if len(users) >= 2 or any(x in spec["obs"] for x in users) or inherited_wrap:
+                        needed_below = bool(users) and any(uses(x) for x in _components_under(child) if x in m.reg)
+                        if len(users) >= 2 or any(x in spec["obs"] for x in users) or inherited_wrap or needed_below:
                             child["items"].remove(cit)
                             del spec["ctors"][cit[1]]
                             m.__init__(spec)
